@@ -11,7 +11,7 @@ Model: `Utv.Conv` (lean/Utv/Model/Conv.lean), the converters of utype/utils/tran
 `Utv.C12M` (Model/C12.lean) for the three parse-level places that read the flags.  All theorems are `∀ P : Prims`
 (the CPython builtins), `∀ E : Env` (the enum classes), over all values — no bound on sizes or nesting.
 -/
-import Utv.Lemmas.C12
+import Utv.Lemmas.C12Group
 import Utv.Model.C12
 
 namespace Utv.C12
@@ -175,5 +175,536 @@ theorem C12_mono_partial (P : Prims) (L : PrimLaws P) (E : Env) (u : Unresolved)
       · exact ⟨r, h, sameValue.rfl' r⟩
       · rename_i cv hcv
         exact C12_mono_conv P L E f t v cv r hcv hk ho (by simpa [hcv] using hm) h
+
+
+/-! ## (3) no_explicit_cast: a value converts only within its primitive group -/
+
+/-- **C12_group_conv** (partial in `complex-from-str-under-nec`): what a converter accepts under
+no_explicit_cast lies in the target's primitive group (`GroupOK`: the six groups, `Decimal` also from the
+string group, the date/time types also from strings and numbers, abstract collection classes pass their
+instances through).  Enum targets: `C12_group_enum`. -/
+theorem C12_group_conv (P : Prims) (L : PrimLaws P) (E : Env) (d : Bool) (t : Target) (v : V) (cv : Conv) (r : V)
+    (hk : KnownDefect.complexFromStr cv v = false)
+    (hj : KnownDefect.jsonControlChar P E v = false)
+    (h : runConv P E ⟨true, d⟩ t v cv = .ok r) : GroupOK cv v = true := by
+  cases cv
+  case null =>
+    have h' := nec_reduce (X := fun f => toNull f v) (by rw [toNull_ndl]; exact Sub.refl _) d r h
+    cases v <;> simp [toNull] at h' <;> rfl
+  case str =>
+    have h' := nec_reduce (X := fun f => toStr P E f (subOf t) v) (toStr_ndl P L E true _ v) d r h
+    cases v <;> simp [toStr, attemptFrom, fromByteLike, isInst, V.cls?, Base.sub] at h' <;> try rfl
+    case seq k c' xs => cases k <;> simp [SeqK.base] at h'
+  case bytes =>
+    cases t with
+    | cls b c =>
+      simp only [runConv] at h
+      cases hk' : b.bytesK? with
+      | none => simp [hk'] at h
+      | some k =>
+        simp only [hk'] at h
+        have h' := nec_reduce (X := fun f => toBytes P E f k c v) (toBytes_ndl P E true k c v) d r h
+        cases v <;> simp [toBytes, attemptFrom] at h' <;> rfl
+    | _ => simp [runConv] at h
+  case array =>
+    cases t with
+    | cls b c =>
+      simp only [runConv] at h
+      cases hk' : b.seqK? with
+      | none => simp [hk'] at h
+      | some k =>
+        simp only [hk'] at h
+        have h' := nec_reduce (X := fun f => toArray P f k c v) (toArray_ndl P L true k c v) d r h
+        unfold toArray at h'
+        split at h'
+        · rename_i hi; exact isInst_seq v k (isInstT_isInst v _ c hi)
+        · split at h'
+          · rename_i hm; cases v <;> simp [multi] at hm; rfl
+          · simp at h'
+    | _ => simp [runConv] at h
+  case dict =>
+    have h' := nec_reduce (X := fun f => toDict P E f (subOf t) v) (toDict_ndl P L E true _ v hj) d r h
+    unfold toDict at h'
+    split at h'
+    · rename_i hi; exact isInst_dict v (isInstT_isInst v _ _ hi)
+    · split at h'
+      · rfl
+      · simp at h'
+  case mapping =>
+    have h' := nec_reduce (X := fun f => toMapping P E f v) (toMapping_ndl P L E true v hj) d r h
+    unfold toMapping at h'
+    split at h'
+    · rename_i hi; exact isInst_dict v hi
+    · unfold toDict at h'
+      split at h'
+      · rename_i hi; exact isInst_dict v (isInstT_isInst v _ _ hi)
+      · split at h'
+        · rfl
+        · simp at h'
+  case float =>
+    have h' := nec_reduce (X := fun f => toFloat P E f (subOf t) v) (toFloat_ndl P L E true _ v) d r h
+    unfold toFloat at h'
+    split at h'
+    · simp [GroupOK, isNumber, isInst, V.cls?, Base.sub]
+    · simp only [if_true] at h'
+      split at h'
+      · rename_i hi
+        simp at hi
+        rcases hi with hi | hi <;> simp [GroupOK, isNumber, hi]
+      · simp at h'
+  case int =>
+    have h' := nec_reduce (X := fun f => toInteger P E f (subOf t) v) (toInteger_ndl P L E true _ v) d r h
+    unfold toInteger at h'
+    split at h'
+    · simp [GroupOK, isNumber, isInst, V.cls?, Base.sub]
+    · simp [GroupOK, isNumber, isInst, V.cls?, Base.sub]
+    · simp only [if_true] at h'
+      split at h'
+      · rename_i hi
+        simp at hi
+        rcases hi with hi | hi <;> simp [GroupOK, isNumber, hi]
+      · simp at h'
+  case decimal =>
+    have h' := nec_reduce (X := fun f => toDecimal P E f (subOf t) v) (toDecimal_ndl_nec P L E _ v) d r h
+    unfold toDecimal at h'
+    split at h'
+    · simp [GroupOK, isNumber, isInst, V.cls?, Base.sub]
+    · simp only [if_true] at h'
+      obtain ⟨d1, hd1, _⟩ := Outcome.bind_eq_ok.mp h'
+      obtain ⟨d2, hd2, hd3⟩ := Outcome.bind_eq_ok.mp hd1
+      split at hd3
+      · rename_i hi
+        exact fromByteLike_group P _ v d2 hd2 (scalar_group d2 hi)
+      · simp at hd3
+  case complex =>
+    have h' := nec_reduce (X := fun f => toComplex P E f (subOf t) v) (toComplex_ndl P L E true _ v) d r h
+    unfold toComplex at h'
+    split at h'
+    · rename_i hi; exact isInst_complex v (isInstT_isInst v _ _ hi)
+    · simp only [if_true] at h'
+      obtain ⟨d2, hd2, hd3⟩ := Outcome.bind_eq_ok.mp h'
+      split at hd3
+      · rename_i hi
+        have hg := fromByteLike_group P _ v d2 hd2 (scalar_group d2 (by
+          simp at hi ⊢; rcases hi with ((hi | hi) | hi) | hi <;> simp [hi]))
+        simp [KnownDefect.complexFromStr] at hk
+        simp [GroupOK]
+        simp at hg
+        rcases hg with hg | hg
+        · exact hg
+        · simp [hk] at hg
+      · simp at hd3
+  case bool =>
+    have h' := nec_reduce (X := fun f => Conv.toBool P f v) (toBool_ndl P true v) d r h
+    unfold Conv.toBool at h'
+    split at h'
+    · simp [GroupOK, isBoolLike]
+    · obtain ⟨b1, hb1, h2⟩ := Outcome.bind_eq_ok.mp h'
+      split at h2
+      · rename_i hb; subst hb; simp [GroupOK, isBoolLike, hb1, okTrue]
+      · obtain ⟨b0, hb0, h3⟩ := Outcome.bind_eq_ok.mp h2
+        split at h3
+        · rename_i hb; subst hb; simp [GroupOK, isBoolLike, hb0, okTrue]
+        · simp at h3
+  case enum => rfl
+  case datetime =>
+    have h' := nec_reduce (X := fun f => toDatetime P E f (subOf t) false v) (toDatetime_ndl P L E true _ false v) d r h
+    exact toDatetime_nec_group P E _ false v r h'
+  case date =>
+    have h' := nec_reduce (X := fun f => toDate P E f v) (toDate_ndl P L E true v) d r h
+    unfold toDate at h'
+    split at h'
+    · simp [GroupOK, isTemporal]
+    · simp [GroupOK, isTemporal]
+    · obtain ⟨dt, hdt, _⟩ := Outcome.bind_eq_ok.mp h'
+      exact toDatetime_nec_group P E _ true v dt hdt
+  case timedelta =>
+    have h' := nec_reduce (X := fun f => toTimedelta P E f (subOf t) v) (toTimedelta_ndl P L E true _ v) d r h
+    unfold toTimedelta at h'
+    split at h'
+    · rename_i hi
+      simp [GroupOK, isInst_temporal v _ (Or.inr (Or.inl rfl)) (isInstT_isInst v _ _ hi)]
+    · simp only [attemptFrom, if_true, Outcome.ok_bind] at h'
+      obtain ⟨d2, hd2, h3⟩ := Outcome.bind_eq_ok.mp h'
+      cases hf : toFloat P E ⟨true, false⟩ 0 d2 with
+      | ok x =>
+        have hn : isNumber d2 = true := by
+          unfold toFloat at hf
+          split at hf
+          · simp [isNumber, isInst, V.cls?, Base.sub]
+          · simp only [if_true] at hf
+            split at hf
+            · rename_i hi; simp at hi; rcases hi with hi | hi <;> simp [isNumber, hi]
+            · simp at hf
+        have := fromByteLike_group P _ v d2 hd2 (by simp [hn])
+        simp at this
+        rcases this with h1 | h1 <;> simp [GroupOK, h1]
+      | perr e =>
+        simp only [hf] at h3
+        split at h3
+        · rename_i c' s; simp [GroupOK, fromByteLike_str_string P _ v c' s hd2]
+        · simp at h3
+      | escape e => simp [hf] at h3
+      | diverge => simp [hf] at h3
+      | unmodelled w => simp [hf] at h3
+  case time =>
+    have h' := nec_reduce (X := fun f => toTime P E f (subOf t) v) (toTime_ndl P L E true _ v) d r h
+    unfold toTime at h'
+    split at h'
+    · rename_i hi
+      simp [GroupOK, isInst_temporal v _ (Or.inr (Or.inr (Or.inl rfl))) (isInstT_isInst v _ _ hi)]
+    · simp only [attemptFrom, if_true, Outcome.ok_bind, Bool.false_eq_true, if_false] at h'
+      cases v <;> simp [fromByteLike] at h' <;> simp [GroupOK, isTemporal, isString]
+  case uuid =>
+    have h' := nec_reduce (X := fun f => toUuid P f (subOf t) v) (toUuid_ndl P true _ v) d r h
+    unfold toUuid at h'
+    split at h'
+    · rename_i hi; simp [GroupOK, isInst_uuid v (isInstT_isInst v _ _ hi)]
+    · split at h'
+      · simp [GroupOK, isString]
+      · simp [GroupOK, isString]
+      · simp at h'
+  case iter =>
+    cases t with
+    | abc a =>
+      simp only [runConv] at h
+      have h' := nec_reduce (X := fun f => toIter P f a v) (toIter_ndl P L true a v) d r h
+      unfold toIter at h'
+      split at h'
+      · rename_i hi
+        exact isInstAbc_group v a hi
+      · unfold toArray at h'
+        split at h'
+        · rename_i hi; simp [GroupOK, isInst_seq v .list (isInstT_isInst v _ _ hi)]
+        · split at h'
+          · rename_i hm; cases v <;> simp [multi] at hm; simp [GroupOK, isArray]
+          · simp at h'
+    | _ => simp [runConv] at h
+
+/-- **C12_group_enum**: under no_explicit_cast an Enum target is reached by value only: the result is the
+input itself (already a member) or the first member whose value `==` the input. -/
+theorem C12_group_enum (P : Prims) (E : Env) (d : Bool) (k : Nat) (v r : V)
+    (h : toEnum P E ⟨true, d⟩ k v = .ok r) :
+    r = v ∨ ∃ decl i, E.enum? k = some decl ∧ r = .enum k i ∧
+      ∃ hi : i < decl.members.length, pyeq decl.members[i].2 v = true := by
+  have hcall : enumCall E k v = .ok r → ∃ decl i, E.enum? k = some decl ∧ r = .enum k i ∧
+      ∃ hi : i < decl.members.length, pyeq decl.members[i].2 v = true := by
+    intro hc
+    unfold enumCall at hc
+    cases hd : E.enum? k with
+    | none => simp [hd] at hc
+    | some decl =>
+      simp only [hd] at hc
+      split at hc
+      · simp at hc
+      · cases hi : decl.members.findIdx? (fun m => pyeq m.2 v) with
+        | none => simp [hi] at hc
+        | some i =>
+          simp only [hi] at hc
+          obtain ⟨hlt, hp, _⟩ := List.findIdx?_eq_some_iff_getElem.mp hi
+          exact ⟨decl, i, rfl, by simpa using hc.symm, hlt, hp⟩
+  unfold toEnum at h
+  split at h
+  · split at h
+    · left; simpa using h.symm
+    · simp only [if_true] at h; right; exact hcall h
+  · simp only [if_true] at h; right; exact hcall h
+
+/-! ## (2) the promises of no_data_loss -/
+
+/-- the integer a number equals, if it has no fractional part (spec vocabulary, independent of the code:
+floats are `m·2^e`, Decimals `±c·10^e`) -/
+def exactInt? : V → Option Int
+  | .bool b => some (if b then 1 else 0)
+  | .int _ i => some i
+  | .float _ (.fin m e) =>
+    if e ≥ 0 then some (m * 2 ^ e.toNat)
+    else if m % (2 ^ (-e).toNat) = 0 then some (m / 2 ^ (-e).toNat) else none
+  | .dec _ (.fin s c e) =>
+    let n : Option Int :=
+      if e ≥ 0 then some ((c : Int) * 10 ^ e.toNat)
+      else if (c : Int) % (10 ^ (-e).toNat) = 0 then some ((c : Int) / 10 ^ (-e).toNat) else none
+    n.map fun x => if s then -x else x
+  | _ => none
+
+theorem signed_natAbs (m : Int) (k : Nat) :
+    (if decide (m < 0) = true then -(((m.natAbs * k : Nat) : Int)) else ((m.natAbs * k : Nat) : Int)) = m * k := by
+  by_cases h : m < 0
+  · simp only [h, decide_true, if_true]
+    have : (m.natAbs : Int) = -m := by omega
+    rw [Int.natCast_mul, this]; simp [Int.neg_mul]
+  · simp only [h, decide_false]
+    have : (m.natAbs : Int) = m := by omega
+    simp [Int.natCast_mul, this]
+
+theorem intFinish_exact (P : Prims) (n : Bool) (c : Nat) (v r : V)
+    (hv : (match v with | .float _ _ => true | .dec _ _ => true | _ => false) = true)
+    (h : intFinish P ⟨n, true⟩ c v = .ok r) : ∃ i, r = .int c i ∧ exactInt? v = some i := by
+  cases v <;> simp at hv
+  case float c' f =>
+    cases f with
+    | fin m e =>
+      by_cases he : e ≥ 0
+      · simp [intFinish, decimalOf, decOfFloatExact, he, decFinExp0, intOfDec] at h
+        refine ⟨_, h.symm, ?_⟩
+        simp only [exactInt?, he, if_true]
+        have := signed_natAbs m (2 ^ e.toNat)
+        simp only [Int.natCast_pow, Int.natCast_mul] at this ⊢
+        simpa using this.symm
+      · have he0 : e ≠ 0 := by omega
+        simp [intFinish, decimalOf, decOfFloatExact, he, decFinExp0, he0] at h
+    | inf s => simp [intFinish, decimalOf, decOfFloatExact, decFinExp0] at h
+    | nan => simp [intFinish, decimalOf, decOfFloatExact, decFinExp0] at h
+  case dec c' d =>
+    cases d with
+    | fin s co e =>
+      by_cases he : e = 0
+      · subst he
+        simp [intFinish, decimalOf, decFinExp0, intOfDec] at h
+        refine ⟨_, h.symm, ?_⟩
+        simp [exactInt?]
+      · simp [intFinish, decimalOf, decFinExp0, he] at h
+    | inf s => simp [intFinish, decimalOf, decFinExp0] at h
+    | nan s => simp [intFinish, decimalOf, decFinExp0] at h
+
+/-- **C12_ndl_int**: under no_data_loss a float or Decimal becomes an int only if it is integral, and the int
+is that value. -/
+theorem C12_ndl_int (P : Prims) (E : Env) (n : Bool) (c : Nat) (v r : V)
+    (hv : (match v with | .float _ _ => true | .dec _ _ => true | _ => false) = true)
+    (h : toInteger P E ⟨n, true⟩ c v = .ok r) : ∃ i, r = .int c i ∧ exactInt? v = some i := by
+  have hnot : isInstT v (.cls .int c) = false := by
+    cases v <;> simp at hv <;> cases c <;> simp [isInstT, isInst, V.cls?, Base.sub]
+  cases n
+  · -- lenient + no_data_loss: `_attempt_from_number` maps a zero to the int 0, everything else stays
+    have hafn : attemptFromNumber P E ⟨false, true⟩ v = .ok (if truthy v then v else .int 0 0) := by
+      cases v <;> simp at hv <;> simp [attemptFromNumber, attemptFrom, fromByteLike] <;> split <;> simp_all
+    have h' : intAfter P ⟨false, true⟩ c (if truthy v then v else .int 0 0) = .ok r := by
+      cases v <;> simp at hv <;> simpa [toInteger, hafn] using h
+    by_cases ht : truthy v = true
+    · simp only [ht, if_true] at h'
+      have : intFinish P ⟨false, true⟩ c v = .ok r := by
+        cases v <;> simp at hv <;> simpa [intAfter, hnot] using h'
+      exact intFinish_exact P false c v r hv this
+    · simp only [ht] at h'
+      have hr : r = .int c 0 := by
+        cases c with
+        | zero => simp [intAfter, isInstT, isInst, V.cls?, Base.sub] at h'; exact h'.symm
+        | succ k => simp [intAfter, isInstT, V.cls?, intFinish, decimalOf, decFinExp0, intOfDec] at h'; exact h'.symm
+      refine ⟨0, hr, ?_⟩
+      cases v <;> simp at hv
+      case float c' f =>
+        cases f <;> simp [truthy, fZero] at ht
+        subst ht
+        simp only [exactInt?]
+        split <;> simp
+      case dec c' d =>
+        cases d <;> simp [truthy] at ht
+        subst ht
+        simp only [exactInt?]
+        split <;> simp
+  · have : intFinish P ⟨true, true⟩ c v = .ok r := by
+      cases v <;> simp at hv <;> simpa [toInteger, isInst, V.cls?, Base.sub] using h
+    exact intFinish_exact P true c v r hv this
+
+/-- the text `to_bool` looks at: bytes are decoded strictly, anything else goes through `str()` -/
+def boolText (P : Prims) (v : V) : Outcome String :=
+  match v with
+  | .bytes .bytes _ bs => decodeB P true bs
+  | _ => pyStr P v
+
+/-- **C12_ndl_bool**: under no_data_loss only unambiguous booleans become bool: a bool, a number equal to
+0 / 1, or a text whose lower-case form is in the generated FALSE_VALUES / TRUE_VALUES tables. -/
+theorem C12_ndl_bool (P : Prims) (n : Bool) (v r : V) (h : Conv.toBool P ⟨n, true⟩ v = .ok r) :
+    r = v ∨ (r = .bool true ∧ eqSmall v 1 = .ok true) ∨ (r = .bool false ∧ eqSmall v 0 = .ok true) ∨
+    ∃ s, boolText P v = .ok s ∧
+      ((r = .bool false ∧ Utv.Gen.Tables.FALSE_VALUES.contains (pyLower s) = true) ∨
+       (r = .bool true ∧ Utv.Gen.Tables.TRUE_VALUES.contains (pyLower s) = true)) := by
+  unfold Conv.toBool at h
+  split at h
+  · left; simpa using h.symm
+  · obtain ⟨b1, hb1, h2⟩ := Outcome.bind_eq_ok.mp h
+    split at h2
+    · rename_i hb; subst hb; right; left; exact ⟨by simpa using h2.symm, hb1⟩
+    · obtain ⟨b0, hb0, h3⟩ := Outcome.bind_eq_ok.mp h2
+      split at h3
+      · rename_i hb; subst hb; right; right; left; exact ⟨by simpa using h3.symm, hb0⟩
+      · split at h3
+        · simp at h3
+        · obtain ⟨d, hd, h4⟩ := Outcome.bind_eq_ok.mp h3
+          obtain ⟨s, hs, h5⟩ := Outcome.bind_eq_ok.mp h4
+          right; right; right
+          refine ⟨s, ?_, ?_⟩
+          · unfold boolText
+            split at hd
+            · obtain ⟨s', hs', hd'⟩ := Outcome.bind_eq_ok.mp hd
+              simp at hd'; subst hd'
+              simp [pyStr] at hs; subst hs
+              exact hs'
+            · simp at hd; subst hd; rename_i hne
+              split
+              · exact absurd rfl (hne _ _)
+              · exact hs
+          · dsimp only at h5
+            split at h5
+            · left; rename_i hf; exact ⟨by simpa using h5.symm, hf⟩
+            · split at h5
+              · right; rename_i ht; exact ⟨by simpa using h5.symm, ht⟩
+              · simp at h5
+
+/-- converters whose target is a scalar and that look through collections with `_attempt_from` -/
+def scalarConv : Conv → Bool
+  | .null | .str | .bytes | .int | .float | .decimal | .datetime | .date | .timedelta | .time | .uuid => true
+  | _ => false
+
+theorem attemptFrom_ndl_multi (E : Env) (k : SeqK) (c : Nat) (xs : List V)
+    (hm : multi (.seq k c xs) = true) (hl : xs.length > 1) :
+    attemptFrom E ⟨false, true⟩ (.seq k c xs) = .perr .typeError := by
+  cases xs with
+  | nil => simp at hl
+  | cons x rest =>
+    cases rest with
+    | nil => simp at hl
+    | cons y ys => simp [attemptFrom, hm]
+
+/-- **C12_ndl_no_collapse**: under no_data_loss a list / tuple / set / frozenset with more than one element is
+never converted by a scalar converter (it never collapses to its first element). -/
+theorem C12_ndl_no_collapse (P : Prims) (E : Env) (n : Bool) (t : Target) (k : SeqK) (c : Nat) (xs : List V)
+    (cv : Conv) (r : V) (hs : scalarConv cv = true)
+    (hm : multi (.seq k c xs) = true) (hl : xs.length > 1) :
+    runConv P E ⟨n, true⟩ t (.seq k c xs) cv ≠ .ok r := by
+  have ha := attemptFrom_ndl_multi E k c xs hm hl
+  have hi : ∀ b, b ≠ Base.list → b ≠ .tuple → b ≠ .set → b ≠ .frozenset → b ≠ .deque →
+      isInst (V.seq k c xs) b = false := by
+    intro b h1 h2 h3 h4 h5
+    cases k <;> cases b <;> simp_all [isInst, V.cls?, Base.sub, SeqK.base]
+  have hT : ∀ b c', b ≠ Base.list → b ≠ .tuple → b ≠ .set → b ≠ .frozenset → b ≠ .deque →
+      isInstT (V.seq k c xs) (.cls b c') = false := by
+    intro b c' h1 h2 h3 h4 h5
+    cases c' with
+    | zero => exact hi b h1 h2 h3 h4 h5
+    | succ m => cases k <;> cases b <;> simp_all [isInstT, V.cls?, SeqK.base]
+  intro h
+  cases cv <;> simp [scalarConv] at hs
+  case null => simp [runConv, toNull] at h
+  case str =>
+    cases n
+    · simp [runConv, toStr, ha] at h
+    · simp [runConv, toStr, attemptFrom, fromByteLike, hi] at h
+  case bytes =>
+    simp only [runConv] at h
+    split at h
+    · split at h
+      · cases n
+        · simp [toBytes, ha] at h
+        · simp [toBytes, attemptFrom] at h
+      · simp at h
+    · simp at h
+  case int =>
+    cases n
+    · simp [runConv, toInteger, attemptFromNumber, ha] at h
+    · simp [runConv, toInteger, hi] at h
+  case float =>
+    cases n
+    · simp [runConv, toFloat, attemptFromNumber, ha] at h
+    · simp [runConv, toFloat, hi] at h
+  case decimal =>
+    cases n
+    · simp [runConv, toDecimal, attemptFromNumber, ha] at h
+    · simp [runConv, toDecimal, hi, fromByteLike] at h
+  case datetime =>
+    cases n
+    · simp [runConv, toDatetime, hT, ha] at h
+    · simp [runConv, toDatetime, hT, hi, attemptFrom, fromByteLike] at h
+  case date =>
+    cases n
+    · simp [runConv, toDate, toDatetime, hT, ha] at h
+    · simp [runConv, toDate, toDatetime, hT, hi, attemptFrom, fromByteLike] at h
+  case timedelta =>
+    cases n
+    · simp [runConv, toTimedelta, hT, ha] at h
+    · simp [runConv, toTimedelta, hT, hi, attemptFrom, fromByteLike, toFloat] at h
+  case time =>
+    cases n
+    · simp [runConv, toTime, hT, ha] at h
+    · simp [runConv, toTime, hT, attemptFrom, fromByteLike] at h
+  case uuid =>
+    simp [runConv, toUuid, hT] at h
+
+/-- **C12_ndl_strict_decode**: under no_data_loss `_from_byte_like` yields exactly what the *strict* decoder
+accepts (a byte string that is not valid UTF-8 is never turned into text). -/
+theorem C12_ndl_strict_decode (P : Prims) (n : Bool) (k : BytesK) (c : Nat) (bs : List UInt8) (d : V)
+    (h : fromByteLike P ⟨n, true⟩ (.bytes k c bs) = .ok d) : ∃ s, d = .str 0 s ∧ decodeB P true bs = .ok s := by
+  simp only [fromByteLike] at h
+  obtain ⟨s, hs, hd⟩ := Outcome.bind_eq_ok.mp h
+  exact ⟨s, by simpa using hd.symm, hs⟩
+
+/-- **C12_ndl_date_datetime**: under no_data_loss a datetime never becomes a date. -/
+theorem C12_ndl_date_datetime (P : Prims) (E : Env) (n : Bool) (c : Nat) (d : DateV) (t : TimeV) :
+    toDate P E ⟨n, true⟩ (.datetime c d t) = .perr .valueError := by
+  simp [toDate]
+
+/-- **C12_ndl_date_midnight**: under no_data_loss whatever else becomes a date (a date string, a timestamp) is
+read by `to_datetime` as a datetime whose time of day is exactly midnight — a timed string never becomes a date. -/
+theorem C12_ndl_date_midnight (P : Prims) (E : Env) (n : Bool) (v r : V)
+    (hv : ∀ c d, v ≠ .date c d) (h : toDate P E ⟨n, true⟩ v = .ok r) :
+    ∃ c d t, toDatetime P E ⟨n, true⟩ 0 true v = .ok (.datetime c d t) ∧ midnight t = true ∧ r = .date 0 d := by
+  unfold toDate at h
+  split at h
+  · simp at h
+  · rename_i c d; exact absurd rfl (hv c d)
+  · obtain ⟨dt, hdt, h2⟩ := Outcome.bind_eq_ok.mp h
+    split at h2
+    · rename_i c d t
+      dsimp only at h2
+      split at h2
+      · simp at h2
+      · rename_i hmid
+        refine ⟨c, d, t, hdt, ?_, by simpa using h2.symm⟩
+        simpa using hmid
+    · simp at h2
+
+/-! ### parse level: tuple excess, unknown keys, list input of a data class -/
+
+open Utv.C12M in
+/-- **C12_ndl_addition**: `Options(no_data_loss=True)` never leaves `addition` unset / None: unknown keys are
+rejected unless the caller explicitly asked to keep them. -/
+theorem C12_ndl_addition (a : Addition) :
+    normAddition true a ≠ .unset ∧ normAddition true a ≠ .none ∧
+    (a ≠ .yes → unknownKey (normAddition true a) = .rejected) := by
+  cases a <;> decide
+
+open Utv.C12M in
+/-- **C12_ndl_tuple_excess**: under no_data_loss every item beyond the declared prefix is reported
+(`TupleExceedError`), whatever `addition` says. -/
+theorem C12_ndl_tuple_excess (a : Addition) (nargs nvals : Nat) (h : nvals > nargs) :
+    tupleExcess a true nargs nvals = List.range' nargs (nvals - nargs) ∧ tupleExcess a true nargs nvals ≠ [] := by
+  have : nvals - nargs ≠ 0 := by omega
+  simp [tupleExcess, h, this]
+
+open Utv.C12M in
+/-- **C12_ndl_dataclass_list**: under no_data_loss a list / tuple of several items is not collapsed to its
+first item on the way into a data class; and the preference only restricts this step. -/
+theorem C12_ndl_dataclass_list (n : Bool) (k : SeqK) (c : Nat) (x y : V) (rest : List V)
+    (hk : k = .list ∨ k = .tuple) :
+    dataclassUnwrap ⟨false, true⟩ (.seq k c (x :: y :: rest)) = .perr .typeError ∧
+    ∀ v r, dataclassUnwrap ⟨n, true⟩ v = .ok r → dataclassUnwrap ⟨n, false⟩ v = .ok r := by
+  constructor
+  · rcases hk with rfl | rfl <;> simp [dataclassUnwrap]
+  · intro v r h
+    cases n
+    · cases v with
+      | seq k' c' xs =>
+        simp only [dataclassUnwrap] at h ⊢
+        by_cases hc : ((k' == SeqK.list || k' == SeqK.tuple) && !false) = true
+        · simp only [hc, if_true] at h ⊢
+          cases xs with
+          | nil => exact h
+          | cons a as =>
+            cases as with
+            | nil => simpa using h
+            | cons b bs => simp at h
+        · simp only [hc] at h ⊢; exact h
+      | _ => simpa [dataclassUnwrap] using h
+    · cases v <;> simpa [dataclassUnwrap] using h
 
 end Utv.C12
